@@ -32,6 +32,15 @@ Example src_reorg_feeds_deleted_block_rows :
   src_l1info_reorg_delete_stmt = "tx.Exec(`DELETE FROM block WHERE num >= $1;`, firstReorgedBlock)"%string.
 Proof. repeat split; reflexivity. Qed.
 
+(* statement order of both Reorg methods: UnhaltIfAffectedRows only after tx.Commit() succeeded (what reorg_faulted models:
+   a Reorg whose transaction fails leaves the flag alone) *)
+Example src_reorg_statement_order :
+  src_bridge_reorg_statement_order = ["delete_blocks"; "rows_affected"; "tree_reorg"; "commit"; "unhalt"]%string /\
+  src_bridge_reorg_unhalt_after_commit = true /\
+  src_l1info_reorg_statement_order = ["delete_blocks"; "tree_reorg"; "tree_reorg"; "rows_affected"; "commit"; "unhalt"]%string /\
+  src_l1info_reorg_unhalt_after_commit = true.
+Proof. repeat split; reflexivity. Qed.
+
 (* ProcessBlock of both processors starts with the halted guard; isHalted returns the flag *)
 Example src_processblock_guarded :
   src_bridge_processblock_guarded = true /\ src_l1info_processblock_guarded = true /\
@@ -131,11 +140,37 @@ Proof. exact unhalt_iff_reorg_reaches_tip. Qed.
 
 (* whole histories: blocks, queries and reorgs that delete nothing leave a halted syncer halted, with the same rows *)
 Theorem C14_halted_history :
-  forall row row_num input mem apply on_reorg ops (st : state row mem),
-    halted st = true -> Forall (harmless row row_num input (rows st)) ops ->
-    halted (run row row_num input mem apply on_reorg ops st) = true /\
-    rows (run row row_num input mem apply on_reorg ops st) = rows st.
+  forall row row_num input mem has_leaves apply on_reorg ops (st : state row mem),
+    halted st = true -> Forall (harmless row row_num input has_leaves (rows st)) ops ->
+    halted (run row row_num input mem has_leaves apply on_reorg ops st) = true /\
+    rows (run row row_num input mem has_leaves apply on_reorg ops st) = rows st.
 Proof. exact halted_history. Qed.
+
+(* a Reorg whose transaction fails (storage fault after the block rows were deleted: tree purge or commit) returns an
+   error and changes neither the rows nor the flag ... *)
+Theorem C14_failed_reorg_changes_nothing :
+  forall row row_num mem has_leaves on_reorg f b (st : state row mem),
+    fault_fires row row_num mem has_leaves f b st = true ->
+    fst (reorg_faulted row row_num mem has_leaves on_reorg f b st) = OOther /\
+    halted (snd (reorg_faulted row row_num mem has_leaves on_reorg f b st)) = halted st /\
+    rows (snd (reorg_faulted row row_num mem has_leaves on_reorg f b st)) = rows st.
+Proof. exact failed_reorg_changes_nothing. Qed.
+
+(* ... so, fault or not: halted afterwards iff halted before and (the Reorg failed or deleted no block row) *)
+Theorem C14_faulted_reorg_flag :
+  forall row row_num mem has_leaves on_reorg f b (st : state row mem),
+    halted (snd (reorg_faulted row row_num mem has_leaves on_reorg f b st)) =
+    halted st && (fault_fires row row_num mem has_leaves f b st || (deleted_rows row row_num mem b st =? 0)).
+Proof. exact faulted_reorg_flag. Qed.
+
+(* what the obligation src_reorg_statement_order protects against: with UnhaltIfAffectedRows before the commit, a failed
+   Reorg that removed nothing clears the flag *)
+Theorem C14_early_unhalt_variant_clears_on_failed_reorg :
+  forall row row_num mem has_leaves on_reorg f b (st : state row mem),
+    fault_fires row row_num mem has_leaves f b st = true -> deleted_rows row row_num mem b st <> 0 ->
+    halted (snd (reorg_faulted_with row row_num mem has_leaves on_reorg true f b st)) = false /\
+    rows (snd (reorg_faulted_with row row_num mem has_leaves on_reorg true f b st)) = rows st.
+Proof. exact early_unhalt_clears_on_failed_reorg. Qed.
 
 (* ---- route 1 (bridge): deposit-count gap ----
    In EVERY state reachable from the initial one by any history of blocks / reorgs / queries, a block whose deposit
@@ -146,7 +181,7 @@ Proof. exact halted_history. Qed.
    initial state and every Reorg, preserved by every ProcessBlock. *)
 Theorem C14_halt_reached_gap :
   forall ops num pre dc post c',
-    let st := run brow br_num (list bevent) bmem b_apply b_on_reorg ops b_init in
+    let st := run brow br_num (list bevent) bmem b_has_leaves b_apply b_on_reorg ops b_init in
     halted st = false -> has_block brow br_num bmem num st = false ->
     b_scan_simple pre (b_db_next (rows st)) = Some c' -> dc <> c' ->
     fst (b_process num (pre ++ BBridge dc :: post) st) = OInconsistent /\
@@ -156,14 +191,14 @@ Proof. exact b_halt_reached_gap. Qed.
 
 Theorem C14_halt_only_by_gap :
   forall ops num evs,
-    let st := run brow br_num (list bevent) bmem b_apply b_on_reorg ops b_init in
+    let st := run brow br_num (list bevent) bmem b_has_leaves b_apply b_on_reorg ops b_init in
     halted st = false -> halted (snd (b_process num evs st)) = true ->
     exists pre dc post c', evs = pre ++ BBridge dc :: post /\
       b_scan_simple pre (b_db_next (rows st)) = Some c' /\ dc <> c'.
 Proof. exact b_halt_only_by_gap. Qed.
 
 Theorem C14_bridge_index_synced_in_every_reachable_state :
-  forall ops, b_synced (run brow br_num (list bevent) bmem b_apply b_on_reorg ops b_init).
+  forall ops, b_synced (run brow br_num (list bevent) bmem b_has_leaves b_apply b_on_reorg ops b_init).
 Proof. exact b_reachable_synced. Qed.
 
 Theorem C14_bridge_processblock_preserves_synced :
@@ -181,9 +216,9 @@ Proof. exact b_add_leaf_reject. Qed.
 (* the two regression histories: a gap of exactly the number of leaves the preceding reorg removed is detected *)
 Theorem C14_regression_histories_detected :
   map fst (b_trace b_witness_ops b_init) = [OOk; OOk; OInconsistent] /\
-  halted (run brow br_num (list bevent) bmem b_apply b_on_reorg b_witness_ops b_init) = true /\
+  halted (run brow br_num (list bevent) bmem b_has_leaves b_apply b_on_reorg b_witness_ops b_init) = true /\
   map fst (b_trace b_witness_ops2 b_init) = [OOk; OOk; OOk; OInconsistent] /\
-  halted (run brow br_num (list bevent) bmem b_apply b_on_reorg b_witness_ops2 b_init) = true.
+  halted (run brow br_num (list bevent) bmem b_has_leaves b_apply b_on_reorg b_witness_ops2 b_init) = true.
 Proof. exact b_gap_after_reorg_detected. Qed.
 
 (* ---- route 2 (L1 info tree): an announcement whose root or leaf count differs from the tree halts; nothing else does ---- *)
@@ -236,7 +271,7 @@ Proof. exact ref_l_iff_scan. Qed.
 Theorem C14_model_meets_failstop_bridge :
   forall touches (m : fmethod), (touches = true -> fm_guarded m = true) ->
   forall ops, spec_steps (list bevent) ref_b_inconsistent false touches ops [] false 0 0
-                (model_obs brow br_num (list bevent) bmem b_apply b_on_reorg m ops b_init) = true.
+                (model_obs brow br_num (list bevent) bmem b_has_leaves b_apply b_on_reorg m ops b_init) = true.
 Proof. exact b_model_meets_failstop. Qed.
 
 (* bridge: fail-stop AND detection, every history that feeds increasing block numbers (what EVMDriver does; with
@@ -245,14 +280,14 @@ Theorem C14_model_meets_spec_bridge :
   forall touches (m : fmethod), (touches = true -> fm_guarded m = true) ->
   forall ops, b_increasing ops b_init ->
     spec_steps (list bevent) ref_b_inconsistent true touches ops [] false 0 0
-      (model_obs brow br_num (list bevent) bmem b_apply b_on_reorg m ops b_init) = true.
+      (model_obs brow br_num (list bevent) bmem b_has_leaves b_apply b_on_reorg m ops b_init) = true.
 Proof. exact b_model_meets_spec. Qed.
 
 (* L1 info tree: fail-stop AND detection, every history *)
 Theorem C14_model_meets_spec_l1info :
   forall touches (m : fmethod), (touches = true -> fm_guarded m = true) ->
   forall ops, spec_steps (list levent) ref_l_inconsistent true touches ops [] false 0 0
-                (model_obs lrow lr_num (list levent) unit l_apply l_on_reorg m ops l_init) = true.
+                (model_obs lrow lr_num (list levent) unit l_has_leaves l_apply l_on_reorg m ops l_init) = true.
 Proof. exact l_model_meets_spec. Qed.
 
 (* what the source-fact obligation src_unhalt_condition_is_model protects against: with `rowsAffected >= 0`
@@ -282,17 +317,31 @@ Example C14_nonvacuous_bridge :
   halted (reorg_with brow br_num bmem b_on_reorg CGe 0 12 ex_b_halted) = false.
 Proof. vm_compute. repeat split; reflexivity. Qed.
 
+(* failed reorgs on the halted state: block 10 has leaves, block 11 has none *)
+Example C14_nonvacuous_failed_reorg :
+  fault_fires brow br_num bmem b_has_leaves FCommit 11 ex_b_halted = true /\
+  fault_fires brow br_num bmem b_has_leaves FTree 11 ex_b_halted = false /\
+  fault_fires brow br_num bmem b_has_leaves FTree 10 ex_b_halted = true /\
+  fault_fires brow br_num bmem b_has_leaves FCommit 12 ex_b_halted = false /\
+  fst (b_reorg_faulted FCommit 11 ex_b_halted) = OOther /\ halted (snd (b_reorg_faulted FCommit 11 ex_b_halted)) = true /\
+  rows (snd (b_reorg_faulted FTree 10 ex_b_halted)) = rows ex_b_halted /\
+  halted (snd (b_reorg_faulted FTree 11 ex_b_halted)) = false /\
+  deleted_rows brow br_num bmem 11 ex_b_halted <> 0 /\
+  halted (snd (reorg_faulted_with brow br_num bmem b_has_leaves b_on_reorg true FCommit 11 ex_b_halted)) = false.
+Proof. vm_compute. repeat split; try reflexivity. discriminate. Qed.
+
 (* the hypotheses of the gap theorem / of the increasing-history theorem are met by concrete histories *)
 Definition ex_b_ops : list (op (list bevent)) :=
   [OpBlock 10 [BBridge 0; BOther; BBridge 1]; OpBlock 11 [BOther]; OpQuery; OpBlock 12 [BBridge 3]; OpQuery;
-   OpReorg 13; OpBlock 14 []; OpReorg 11; OpQuery; OpBlock 15 [BBridge 2]; OpQuery].
+   OpReorg 13; OpBlock 14 []; OpReorgFault FCommit 11; OpQuery; OpReorgFault FTree 10; OpReorg 11; OpQuery;
+   OpBlock 15 [BBridge 2]; OpQuery].
 Example C14_nonvacuous_bridge_history :
-  ex_b_healthy = run brow br_num (list bevent) bmem b_apply b_on_reorg
+  ex_b_healthy = run brow br_num (list bevent) bmem b_has_leaves b_apply b_on_reorg
                    [OpBlock 10 [BBridge 0; BOther; BBridge 1]; OpBlock 11 [BOther]] b_init /\
   has_block brow br_num bmem 12 ex_b_healthy = false /\
   b_scan_simple [BBridge 2] (b_db_next (rows ex_b_healthy)) = Some 3 /\
   b_increasing ex_b_ops b_init /\
-  map fst (b_trace ex_b_ops b_init) = [OOk; OOk; OOk; OInconsistent; OOk; OOk; OInconsistent; OOk; OOk; OOk; OOk].
+  map fst (b_trace ex_b_ops b_init) = [OOk; OOk; OOk; OInconsistent; OOk; OOk; OInconsistent; OOther; OOk; OOther; OOk; OOk; OOk; OOk].
 Proof.
   split; [reflexivity|]. split; [reflexivity|]. split; [reflexivity|]. split; [|reflexivity].
   simpl. repeat split; repeat constructor; vm_compute; reflexivity.
@@ -334,7 +383,7 @@ Theorem C14_listed_methods_meet_spec_bridge :
   forall (m : fmethod), In m facade_methods ->
   forall ops, b_increasing ops b_init ->
     spec_steps (list bevent) ref_b_inconsistent true (fm_touches m) ops [] false 0 0
-      (model_obs brow br_num (list bevent) bmem b_apply b_on_reorg m ops b_init) = true.
+      (model_obs brow br_num (list bevent) bmem b_has_leaves b_apply b_on_reorg m ops b_init) = true.
 Proof.
   exact (fun m I => b_model_meets_spec (fm_touches m) m
                       (guarded_list_touches_guarded facade_methods all_data_queries_guarded m I)).
@@ -343,7 +392,7 @@ Qed.
 Theorem C14_listed_methods_meet_spec_l1info :
   forall (m : fmethod), In m facade_methods ->
   forall ops, spec_steps (list levent) ref_l_inconsistent true (fm_touches m) ops [] false 0 0
-                (model_obs lrow lr_num (list levent) unit l_apply l_on_reorg m ops l_init) = true.
+                (model_obs lrow lr_num (list levent) unit l_has_leaves l_apply l_on_reorg m ops l_init) = true.
 Proof.
   exact (fun m I => l_model_meets_spec (fm_touches m) m
                       (guarded_list_touches_guarded facade_methods all_data_queries_guarded m I)).
@@ -379,7 +428,14 @@ Example C14_spec_has_teeth :
           [ {| so_out := OOk; so_last := 10; so_rows := 1 |}; {| so_out := OOk; so_last := 11; so_rows := 2 |} ]) = false /\
   spec (CMethod "BridgeSync" "GetProof" (SBridge b_witness_ops)
           [ {| so_out := OOk; so_last := 13; so_rows := 1 |}; {| so_out := OOk; so_last := 0; so_rows := 0 |};
-            {| so_out := OOk; so_last := 15; so_rows := 1 |} ]) = false.
+            {| so_out := OOk; so_last := 15; so_rows := 1 |} ]) = false /\
+  (* (g) a Reorg that returned an error cleared the condition: the query after it serves data / is refused *)
+  spec (CMethod "BridgeSync" "GetProof" (SBridge [OpBlock 10 [BBridge 0]; OpBlock 11 [BBridge 2]; OpReorgFault FCommit 10; OpQuery])
+          [ {| so_out := OOk; so_last := 10; so_rows := 1 |}; {| so_out := OInconsistent; so_last := 10; so_rows := 1 |};
+            {| so_out := OOther; so_last := 10; so_rows := 1 |}; {| so_out := OOk; so_last := 10; so_rows := 1 |} ]) = false /\
+  spec (CMethod "BridgeSync" "GetProof" (SBridge [OpBlock 10 [BBridge 0]; OpBlock 11 [BBridge 2]; OpReorgFault FCommit 10; OpQuery])
+          [ {| so_out := OOk; so_last := 10; so_rows := 1 |}; {| so_out := OInconsistent; so_last := 10; so_rows := 1 |};
+            {| so_out := OOther; so_last := 10; so_rows := 1 |}; {| so_out := OInconsistent; so_last := 10; so_rows := 1 |} ]) = true.
 Proof. vm_compute. repeat split; reflexivity. Qed.
 
 (* the facade on those states *)
@@ -402,6 +458,9 @@ Print Assumptions C14_unhalt_iff_rows_deleted.
 Print Assumptions C14_noop_reorg_keeps_flag_and_rows.
 Print Assumptions C14_unhalt_iff_reorg_reaches_tip.
 Print Assumptions C14_halted_history.
+Print Assumptions C14_failed_reorg_changes_nothing.
+Print Assumptions C14_faulted_reorg_flag.
+Print Assumptions C14_early_unhalt_variant_clears_on_failed_reorg.
 Print Assumptions C14_halt_reached_gap.
 Print Assumptions C14_halt_only_by_gap.
 Print Assumptions C14_bridge_index_synced_in_every_reachable_state.
